@@ -29,7 +29,7 @@ package types
 // rewrite everything reachable from its arguments (here: the map it fills).
 //@ ext time.Parse
 //@   ensures true
-//@ ext encoding/base64.(*Encoding).DecodeString
+//@ ext (*encoding/base64.Encoding).DecodeString
 //@   ensures true
 //@ func ParseIndexType
 //@   trusted
